@@ -23,6 +23,10 @@ package archiver
 //@   property C17
 //@   attr hooked @C01 inputCh,outputCh
 //@   attr cancellable @C03 inputCh,outputCh,ResumeCh
+//@   local ackd int = 0
+//@   after selrecv(PauseCh): ackd = 1
+//@   after selsend(ResumeCh): ackd = 0
+//@   loop for invariant [no-work-while-paused] @C14 ackd == 0 // C14: every stage worker stops taking new work once it has acknowledged the pause and takes none until resume (a worker that took the pause signal is back at the select that receives work only after its resume handshake went through; otherwise it has returned)
 //@   local stopSeen int = 0
 //@   after selrecv(done(ctx)): stopSeen = 1
 //@   loop for invariant [returns-on-stop] @C03 stopSeen == 0 // C03: a stop request returns within bounded time (once the goroutine has seen its context cancelled it returns: it never comes back to the head of its loop)
